@@ -11,6 +11,7 @@ import (
 
 const unixToInternal = int64((1969*365 + 1969/4 - 1969/100 + 1969/400) * 86400)
 
+var nanosDecomp = map[*term.Term][2]*term.Term{}
 var nowOverride value // set by gosym_SetNow; nil = fresh symbolic non-decreasing instants
 var lastNowSec, lastNowNsec *term.Term
 
@@ -59,6 +60,74 @@ func init() {
 		sub := fr.i.prog.LookupMethod(fn, nil, "Sub")
 		return call(fr.i, fr, 0, sub, []value{a[0], now})
 	})
+	// time.Unix(sec, nsec) with a symbolic out-of-range nsec (e.g. time.Unix(0, nanos)): instead of dividing,
+	// introduce fresh sec', nsec' with sec'*1e9 + nsec' = sec*1e9 + nsec and 0 <= nsec' < 1e9.
+	symExt("time.Unix", func(fr *frame, a []value) value {
+		sec, nsec := lift(a[0]).t, lift(a[1]).t
+		if nsec.IsConst() && nsec.Val < 1000000000 {
+			return mkTime(sec, nsec)
+		}
+		if d, ok := nanosDecomp[nsec]; ok && sec.IsConst() && sec.Val == 0 {
+			return mkTime(d[0], d[1])
+		}
+		s2 := newInput(freshName("unix.sec"), term.BV(64))
+		n2 := newInput(freshName("unix.nsec"), term.BV(64))
+		e9 := term.Const(64, 1000000000)
+		addPC(term.Cmp("bvult", n2, e9))
+		// seconds within +-2^40 so that the products cannot wrap
+		lim := term.Const(64, 1<<40)
+		addPC(term.Cmp("bvslt", term.Neg(lim), s2))
+		addPC(term.Cmp("bvslt", s2, lim))
+		addPC(term.Cmp("bvslt", term.Neg(lim), sec))
+		addPC(term.Cmp("bvslt", sec, lim))
+		lhs := term.Bin("bvadd", term.Bin("bvmul", s2, e9), n2)
+		rhs := term.Bin("bvadd", term.Bin("bvmul", sec, e9), nsec)
+		addPC(term.Eq(lhs, rhs))
+		return mkTime(s2, n2)
+	})
+	// Time.Sub / Time.Add on symbolic instants: closed-form terms (no monotonic readings; instants and
+	// durations stay far from the int64 limits, so the saturation branches of the real code cannot trigger).
+	timeParts := func(v value) (sec, nsec *term.Term) {
+		st := v.(structure)
+		wall, ext := lift(st[0]).t, lift(st[1]).t
+		return ext, term.Bin("bvand", wall, term.Const(64, 1<<30-1))
+	}
+	symExt("(time.Time).Sub", func(fr *frame, a []value) value {
+		ts, tn := timeParts(a[0])
+		us, un := timeParts(a[1])
+		d := term.Bin("bvadd", term.Bin("bvmul", term.Bin("bvsub", ts, us), term.Const(64, 1000000000)), term.Bin("bvsub", tn, un))
+		return mkScalar(d, types.Int64)
+	})
+	symExt("(time.Time).Add", func(fr *frame, a []value) value {
+		ts, tn := timeParts(a[0])
+		dv, ok := a[1].(int64)
+		if !ok {
+			unsupported("Time.Add with a symbolic duration")
+		}
+		ds, dn := dv/1000000000, dv%1000000000
+		sec := term.Bin("bvadd", ts, term.Const(64, uint64(ds)))
+		nsec := term.Bin("bvadd", tn, term.Const(64, uint64(dn)))
+		e9 := term.Const(64, 1000000000)
+		over := term.Not(term.Cmp("bvslt", nsec, e9))
+		under := term.Cmp("bvslt", nsec, term.Const(64, 0))
+		sec2 := term.Ite(over, term.Bin("bvadd", sec, term.Const(64, 1)), term.Ite(under, term.Bin("bvsub", sec, term.Const(64, 1)), sec))
+		nsec2 := term.Ite(over, term.Bin("bvsub", nsec, e9), term.Ite(under, term.Bin("bvadd", nsec, e9), nsec))
+		st := a[0].(structure)
+		return structure{mkScalar(nsec2, types.Uint64), mkScalar(sec2, types.Int64), st[2]}
+	})
+	// gosym_Nanos(name): a symbolic count of nanoseconds since the epoch, sec*1e9+nsec with sec in [2^28,2^33)
+	// and nsec < 1e9; time.Unix(0, x) recovers (sec, nsec) from the recorded decomposition without dividing.
+	apiExt["gosym_Nanos"] = func(fr *frame, a []value) value {
+		nm := argString(a[0])
+		sec := newInput(nm+".sec", term.BV(64))
+		nsec := newInput(nm+".nsec", term.BV(64))
+		addPC(term.Cmp("bvule", term.Const(64, 1<<28), sec))
+		addPC(term.Cmp("bvult", sec, term.Const(64, 1<<33)))
+		addPC(term.Cmp("bvult", nsec, term.Const(64, 1000000000)))
+		x := term.Bin("bvadd", term.Bin("bvmul", sec, term.Const(64, 1000000000)), nsec)
+		nanosDecomp[x] = [2]*term.Term{sec, nsec}
+		return mkScalar(x, types.Int64)
+	}
 	apiExt["gosym_SetNow"] = func(fr *frame, a []value) value {
 		nowOverride = a[0]
 		return nil
